@@ -232,8 +232,9 @@ class ScriptedAdbDevice(object):
         if s.get('host_wrte_unacked'):
           self.violations.append('host sent a second WRTE on stream %s before reading the OKAY of the previous one' % h['arg0'])
         s.setdefault('host_data', []).append(payload)
+      if s is not None:
+        s['host_wrte_unacked'] = True     # until the host has read our OKAY (never, if this stream does not acknowledge)
       if s is not None and (self.script[s['idx']] if s['idx'] < len(self.script) else {}).get('ack_host_writes', True):
-        s['host_wrte_unacked'] = True
         self._emit('OKAY', s['remote'], s['local'], meta=('ack', s['local']))
     elif cmd == 'CLSE':
       if s is not None:
